@@ -8,7 +8,7 @@
    rewritten basin, ds.features_scalar and ds[feat]) are universally
    quantified function arguments. *)
 From Coq Require Import ZArith List Bool.
-From Verif Require Import Model.C08 Proofs.C08 Proofs.C08_file.
+From Verif Require Import Model.C08 Proofs.C08 Proofs.C08_file Proofs.C08_basins.
 Import ListNotations.
 Open Scope Z_scope.
 
@@ -215,6 +215,58 @@ Theorem C08_condense_scalar_equal :
     end.
 Proof. exact condense_scalar_features. Qed.
 Print Assumptions C08_condense_scalar_equal.
+
+(* Basin definitions (compress, repack without --strip-basins, condense: any
+   feature selection).  Hypotheses about the md5 names: injective, and never
+   the name of a definition of the source (oracle).  Every definition of the
+   input is in the output: unchanged (same parsed dictionary, same text) for
+   file/remote basins and for internal basins all of whose features are
+   copied; under a new name with "features" = exactly the copied ones when
+   only some are copied; left out when none is. *)
+Theorem C08_copy_preserves_basin_definitions :
+  forall (fexists fscalar fbmap defective : Z -> bool)
+         (rekey : Z -> list Z -> Z) (sel : fsel) (inc_logs inc_tables : bool)
+         (f : h5file) (key : Z) (bn : bdef),
+    rekey_inj rekey -> NoDup (map fst (f_basins f)) ->
+    rekey_fresh rekey (f_basins f) ->
+    In (key, bn) (f_basins f) -> wf_dset (b_ds bn) ->
+    let fit := feature_iter fscalar fbmap sel true f in
+    let out := f_basins (rtdc_copy fexists fscalar fbmap defective rekey sel
+                                   true inc_logs inc_tables f) in
+    let kept := filter (fun x => memZ x fit) (b_feats bn) in
+    if negb (b_internal bn) || idx_eqb kept (b_feats bn) && negb (idx_eqb kept [])
+    then exists b', assoc key out = Some b'
+                    /\ b_internal b' = b_internal bn
+                    /\ b_feats b' = b_feats bn /\ b_rest b' = b_rest bn
+                    /\ content (b_ds b') = content (b_ds bn)
+    else if idx_eqb kept [] then assoc key out = None
+    else exists b', assoc (rekey key kept) out = Some b'
+                    /\ assoc key out = None
+                    /\ b_internal b' = true
+                    /\ b_feats b' = kept /\ b_rest b' = b_rest bn.
+Proof. exact copy_preserves_basin_definitions. Qed.
+Print Assumptions C08_copy_preserves_basin_definitions.
+
+(* ... and every definition of the output stems from one of the input. *)
+Theorem C08_copy_invents_no_basin :
+  forall (fexists fscalar fbmap defective : Z -> bool)
+         (rekey : Z -> list Z -> Z) (sel : fsel) (inc_logs inc_tables : bool)
+         (f : h5file) (k' : Z) (b' : bdef),
+    rekey_inj rekey -> NoDup (map fst (f_basins f)) ->
+    rekey_fresh rekey (f_basins f) ->
+    In (k', b') (f_basins (rtdc_copy fexists fscalar fbmap defective rekey sel
+                                     true inc_logs inc_tables f)) ->
+    exists key bn, In (key, bn) (f_basins f)
+                   /\ (k' = key \/ k' = rekey key (b_feats b'))
+                   /\ b_rest b' = b_rest bn /\ b_internal b' = b_internal bn
+                   /\ b_feats b'
+                      = (if b_internal bn
+                         then filter (fun x => memZ x (feature_iter fscalar fbmap
+                                                                     sel true f))
+                                     (b_feats bn)
+                         else b_feats bn).
+Proof. exact copy_invents_no_basin. Qed.
+Print Assumptions C08_copy_invents_no_basin.
 
 (* ---- known findings ---------------------------------------------------- *)
 (* tdms2rtdc: fl?_max are stored as uint32, negative peak maxima of the .tdms
